@@ -1,5 +1,7 @@
 From Coq Require Import ZArith List Bool String Reals QArith Qreals Lra Lia Psatz Permutation.
 From HV Require Import Common.Generic C01.Model.
+(* keeps Findings.vo built whenever the obligations are (Props.v imports it) *)
+From HV Require C01.Findings.
 Import ListNotations.
 
 (** * 1. Flattening and un-flattening of a detector grid, all shapes *)
@@ -272,6 +274,52 @@ Proof.
 Qed.
 End HistoryLemmas.
 
+(** * 3b. Superposition of components and point detectors (no arithmetic law needed: any carrier) *)
+Section Sup.
+Context {T : Type} (O : Ops T).
+
+Lemma zipadd_map {A} (g h : A -> cvec3 T) (pts : list A) :
+  map (fun ab : cvec3 T * cvec3 T => cv_add O (fst ab) (snd ab)) (combine (map g pts) (map h pts))
+  = map (fun q => cv_add O (g q) (h q)) pts.
+Proof. induction pts as [|q t IH]; simpl; [reflexivity|]. rewrite IH. reflexivity. Qed.
+
+Lemma superpose_fold {A B} (F : B -> A -> cvec3 T) (pts : list A) (cs : list B) : forall (g0 : A -> cvec3 T),
+  fold_left (fun (acc : list (cvec3 T)) (f : list (cvec3 T)) =>
+               map (fun ab : cvec3 T * cvec3 T => cv_add O (fst ab) (snd ab)) (combine acc f))
+            (map (fun c => map (F c) pts) cs) (map g0 pts)
+  = map (fun q => fold_left (fun (acc : cvec3 T) (c : B) => cv_add O acc (F c q)) cs (g0 q)) pts.
+Proof.
+  induction cs as [|c1 cs IH]; intros g0; simpl; [reflexivity|].
+  rewrite zipadd_map. apply (IH (fun q => cv_add O (g0 q) (F c1 q))).
+Qed.
+
+Lemma superpose_pointwise {A B} (F : B -> A -> cvec3 T) (pts : list A) (c0 : B) (cs : list B) :
+  superpose O (map (fun c => map (F c) pts) (c0 :: cs))
+  = map (fun q => fold_left (fun (acc : cvec3 T) (c : B) => cv_add O acc (F c q)) cs (F c0 q)) pts.
+Proof. simpl. apply superpose_fold. Qed.
+
+Lemma field_flat_pt (k : T) (cm : ptcomp T) (pts : list (vec3 T)) :
+  (let '(raw, c, (ckz, skz)) := lift_comp cm in field_flat O raw k c ckz skz pts) = map (ptfield O k cm) pts.
+Proof.
+  destruct cm as [[rawpt c] [ckz skz]]. unfold lift_comp, field_flat, ptfield. rewrite !map_map. reflexivity.
+Qed.
+
+Lemma field_flat_sup_pointwise (k : T) (cm0 : ptcomp T) (cms : list (ptcomp T)) (pts : list (vec3 T)) :
+  field_flat_sup O k (map lift_comp (cm0 :: cms)) pts
+  = map (fun q => fold_left (fun (acc : cvec3 T) (cm : ptcomp T) => cv_add O acc (ptfield O k cm q)) cms (ptfield O k cm0 q)) pts.
+Proof.
+  unfold field_flat_sup. rewrite map_map.
+  rewrite (map_ext _ (fun cm => map (ptfield O k cm) pts)) by (intros cm; apply field_flat_pt).
+  apply superpose_pointwise.
+Qed.
+
+(* point detectors / subsets: results stay in the order of the points *)
+Lemma holo_flat_nth (alpha : T) (p : vec3 T) (nrm : T) (fl : list (cvec3 T)) (i : nat) :
+  nth_error (holo_flat O alpha p nrm fl) i = option_map (fun E => holo_px O alpha E (to_vector O p nrm)) (nth_error fl i)
+  /\ nth_error (inten_flat O fl) i = option_map (inten_px O) (nth_error fl i).
+Proof. unfold holo_flat, inten_flat. split; apply nth_error_map. Qed.
+End Sup.
+
 (** * 4. The hologram formula over the reals *)
 Local Open Scope R_scope.
 
@@ -410,6 +458,27 @@ Lemma calc_field_img_pointwise (rawpt : vR -> cvR) k c ckz skz (xs ys zs : list 
   = image_of (fun q => cv_mul RO (phase RO ckz skz) (rawpt (position RO k c q))) xs ys zs.
 Proof. unfold calc_field_img, field_flat. rewrite !map_map. apply unflatten_flatten. Qed.
 
+(** a collection handled by superposition: every pixel carries the formula applied to the SUM of the
+    components' phased fields at that pixel's own position *)
+Definition sum_field (k : R) (cm0 : ptcomp R) (cms : list (ptcomp R)) (q : vR) : cvR :=
+  fold_left (fun (acc : cvR) (cm : ptcomp R) => cv_add RO acc (ptfield RO k cm q)) cms (ptfield RO k cm0 q).
+
+Lemma calc_holo_img_sup_pointwise k (cm0 : ptcomp R) cms alpha p nrm (xs ys zs : list R) :
+  calc_holo_img_sup RO k (map lift_comp (cm0 :: cms)) alpha p nrm xs ys zs
+  = image_of (fun q => holo_px RO alpha (sum_field k cm0 cms q) (to_vector RO p nrm)) xs ys zs.
+Proof.
+  unfold calc_holo_img_sup. rewrite field_flat_sup_pointwise.
+  apply (holo_img_pixelwise (sum_field k cm0 cms)).
+Qed.
+
+Lemma calc_inten_img_sup_pointwise k (cm0 : ptcomp R) cms (xs ys zs : list R) :
+  calc_inten_img_sup RO k (map lift_comp (cm0 :: cms)) xs ys zs
+  = image_of (fun q => inten_px RO (sum_field k cm0 cms q)) xs ys zs.
+Proof.
+  unfold calc_inten_img_sup. rewrite field_flat_sup_pointwise.
+  apply (inten_img_pixelwise (sum_field k cm0 cms)).
+Qed.
+
 (** scaling 0 gives the all-ones image, for any theory output whatsoever (even a wrong length) *)
 Lemma holo_scaling0_everywhere (fl : list cvR) px py pz nrm :
   nrm * nrm = px * px + py * py + pz * pz -> nrm <> 0 -> pz = 0 ->
@@ -456,4 +525,49 @@ Lemma to_vector_Q_R (p : vec3 Q) (nrm : Q) :
 Proof.
   destruct p as [[px py] pz]. intros Hn. unfold to_vector, vQ2R. cbn.
   repeat (rewrite ?Q2R_mult, ?Q2R_inv by exact Hn). reflexivity.
+Qed.
+
+(** the reduced instance [QOr] computes the same real values *)
+Lemma Q2R_Qred (x : Q) : Q2R (Qred x) = Q2R x.
+Proof. apply Qeq_eqR, Qred_correct. Qed.
+
+Lemma holo_px_Qr_R (alpha : Q) (E : cvec3 Q) (p : vec3 Q) :
+  Q2R (holo_px QOr alpha E p) = holo_px RO (Q2R alpha) (cvQ2R E) (vQ2R p).
+Proof.
+  destruct E as [[[exr exi] [eyr eyi]] [ezr ezi]]. destruct p as [[px py] pz].
+  unfold holo_px, cabs2, cadd, cscale, cofR, cvQ2R, cQ2R, vQ2R. cbn [fst snd zero one add mul sub opp inv QOr RO].
+  repeat (rewrite ?Q2R_Qred, ?Q2R_plus, ?Q2R_mult). rewrite ?Q2R_0. reflexivity.
+Qed.
+
+Lemma inten_px_Qr_R (E : cvec3 Q) : Q2R (inten_px QOr E) = inten_px RO (cvQ2R E).
+Proof.
+  destruct E as [[[exr exi] [eyr eyi]] [ezr ezi]].
+  unfold inten_px, cabs2, cvQ2R, cQ2R. cbn [fst snd zero one add mul sub opp inv QOr RO]. repeat (rewrite ?Q2R_Qred, ?Q2R_plus, ?Q2R_mult). reflexivity.
+Qed.
+
+Lemma to_vector_Qr_R (p : vec3 Q) (nrm : Q) :
+  ~ (nrm == 0)%Q -> vQ2R (to_vector QOr p nrm) = to_vector RO (vQ2R p) (Q2R nrm).
+Proof.
+  destruct p as [[px py] pz]. intros Hn. unfold to_vector, vQ2R. cbn [fst snd zero one add mul sub opp inv QOr RO].
+  repeat (rewrite ?Q2R_Qred, ?Q2R_mult, ?Q2R_inv by exact Hn). reflexivity.
+Qed.
+
+Lemma position_Qr_R (k : Q) (c q : vec3 Q) : vQ2R (position QOr k c q) = position RO (Q2R k) (vQ2R c) (vQ2R q).
+Proof.
+  destruct c as [[cx cy] cz]. destruct q as [[x y] z]. unfold position, vQ2R. cbn [fst snd zero one add mul sub opp inv QOr RO].
+  repeat (rewrite ?Q2R_Qred, ?Q2R_mult, ?Q2R_minus). reflexivity.
+Qed.
+
+Lemma phased_Qr_R (ckz skz : Q) (E : cvec3 Q) :
+  cvQ2R (cv_mul QOr (phase QOr ckz skz) E) = cv_mul RO (phase RO (Q2R ckz) (Q2R skz)) (cvQ2R E).
+Proof.
+  destruct E as [[[exr exi] [eyr eyi]] [ezr ezi]].
+  unfold cv_mul, cmul, phase, cvQ2R, cQ2R. cbn [fst snd zero one add mul sub opp inv QOr RO].
+  repeat (rewrite ?Q2R_Qred, ?Q2R_plus, ?Q2R_minus, ?Q2R_mult, ?Q2R_opp). reflexivity.
+Qed.
+
+Lemma cv_add_Qr_R (E F : cvec3 Q) : cvQ2R (cv_add QOr E F) = cv_add RO (cvQ2R E) (cvQ2R F).
+Proof.
+  destruct E as [[[a b] [c d]] [e f]]. destruct F as [[[a' b'] [c' d']] [e' f']].
+  unfold cv_add, cadd, cvQ2R, cQ2R. cbn [fst snd zero one add mul sub opp inv QOr RO]. repeat (rewrite ?Q2R_Qred, ?Q2R_plus). reflexivity.
 Qed.
